@@ -562,6 +562,61 @@ func (w *World) mustPassCall(fn *ssa.Function, pred func(string) bool, what stri
 	return sites, ""
 }
 
+// errPropagates checks that whenever a call matching pred fails (error non-nil / ok
+// false), every way onward leaves fn through a failure exit: the error is never
+// swallowed. Returns inspected sites and a violation text.
+func (w *World) errPropagates(fn *ssa.Function, pred func(string) bool, resultIdx int, what string) (sites []string, violation string) {
+	calls := callsIn(fn, false, pred)
+	if len(calls) == 0 {
+		return nil, fmt.Sprintf("%s: no call to %s found in %s", w.pos(fn.Pos()), what, short(fn.String()))
+	}
+	exitKind := map[*ssa.BasicBlock][]fnExit{}
+	for _, ex := range exitsOf(fn) {
+		exitKind[ex.Block] = append(exitKind[ex.Block], ex)
+	}
+	for _, c := range calls {
+		sites = append(sites, w.pos(c.Pos()))
+		oks := okEdgesOfCall(c, resultIdx)
+		if len(oks) == 0 {
+			return sites, fmt.Sprintf("%s: the result of %s is never tested", w.pos(c.Pos()), what)
+		}
+		for _, ok := range oks {
+			// the sibling edge of the ok edge is the failure edge
+			var bad *ssa.BasicBlock
+			for _, s := range ok.from.Succs {
+				if s != ok.to {
+					bad = s
+				}
+			}
+			if bad == nil {
+				continue
+			}
+			seen := map[*ssa.BasicBlock]bool{bad: true}
+			stack := []*ssa.BasicBlock{bad}
+			for len(stack) > 0 {
+				b := stack[len(stack)-1]
+				stack = stack[:len(stack)-1]
+				for _, ex := range exitKind[b] {
+					if ex.Kind == exitSuccess || ex.Kind == exitUnknown {
+						// for phi-split exits only count the edge actually reachable
+						if ex.Pred != nil && !seen[ex.Pred] {
+							continue
+						}
+						return sites, fmt.Sprintf("%s: after %s failed (%s) the function can still return without an error", w.pos(retPos(ex)), what, w.pos(c.Pos()))
+					}
+				}
+				for _, s := range b.Succs {
+					if !seen[s] {
+						seen[s] = true
+						stack = append(stack, s)
+					}
+				}
+			}
+		}
+	}
+	return sites, ""
+}
+
 // instrDominates: a executes before b on every path to b.
 func instrDominates(a, b ssa.Instruction) bool {
 	ba, bb := a.Block(), b.Block()
